@@ -21,7 +21,7 @@
     node/src/p2p/header_ex.rs         parse_header_request/response   hxParseRequest / hxReadResponses
     node/src/p2p/shrex/pool_tracker.rs EdsNotification::deserialize_and_validate   edsNotification
     node/src/p2p/shrex/codec.rs       ExtendedDataSquare::decode_and_verify (guards)  edsResponseGuards
-    types/src/extended_header.rs      TryFrom<RawExtendedHeader> + validate            ehDecodeValidate
+    types/src/extended_header.rs      ExtendedHeader::validate                         HeaderVerify.validate (group E, C01)
 
   The third-party paths lumina reaches with attacker-controlled values are the transcriptions of
   group D's `Lumina.Model.Nmt` (nmt-rs 0.2.5: `hash_nodes` order panic, `siblings[n-1]` indexing in
@@ -37,7 +37,6 @@
 -/
 import Lumina.Model.Sample
 import Lumina.Model.Framing
-import Lumina.Model.Commit
 
 namespace Lumina.Model.Decoders
 open Lumina.Util Lumina.Model.Nmt Lumina.Model.Eds
@@ -679,60 +678,10 @@ def edsResponseFirstEncode (c : Codec) (rawLen : Nat) (row : List Bytes) : Out (
 
 /-! ## ExtendedHeader (types/src/extended_header.rs)
 
-`TryFrom<RawExtendedHeader>` converts the four parts with tendermint's own `TryFrom`s (third party,
-trusted panic-free like prost: their outcome is the input `EhParts`, `none` = a conversion error) and
-then calls `validate`, whose steps are lumina's.  Hash computations and `validate_basic` of the
-tendermint types are inputs too (their verdicts), the commit check is group E's
-`Commit.verifyCommitLight` with its debug-build tally overflow. -/
-
-/-- what the third-party conversions and hash functions produced for one raw header -/
-structure EhParts where
-  headerBasicOk : Bool
-  commitBasicOk : Bool
-  valset : Commit.ValSet
-  /-- `validator_set.hash() == header.validators_hash` -/
-  valHashMatches : Bool
-  /-- `dah.hash() == header.data_hash` -/
-  dahHashMatches : Bool
-  headerHeight : Nat
-  commitHeight : Nat
-  /-- `commit.block_id.hash == header.hash()` -/
-  blockHashMatches : Bool
-  sigs : List Commit.CSig
-  /-- `AppVersion::from_u64(header.version.app)` is `Some` -/
-  appVersionKnown : Bool
-  dahRows : Nat
-  dahCols : Nat
-  /-- `max_extended_square_width(app_version)` -/
-  maxWidth : Nat
-  deriving Repr
-
-def MIN_EXTENDED_SQUARE_WIDTH : Nat := 2
-
-/-- `ExtendedHeader::validate`; `sigOk` = the signature oracle of `verify_commit_light` -/
-def ehValidate (sigOk : Nat → Nat → Bool) (p : EhParts) : Out Unit :=
-  if !p.headerBasicOk then .err
-  else if !p.commitBasicOk then .err
-  else if !Commit.valSetValidateBasic p.valset then .err
-  else if !p.valHashMatches then .err
-  else if !p.dahHashMatches then .err
-  else if p.commitHeight ≠ p.headerHeight then .err
-  else if !p.blockHashMatches then .err
-  else
-    match Commit.verifyCommitLight sigOk 2 3 p.valset p.headerHeight p.commitHeight p.sigs with
-    | .panic => .panic .nmt        -- `tallied_voting_power += power` overflow (never, see the theorem)
-    | .err _ => .err
-    | .ok =>
-      if !p.appVersionKnown then .err
-      else if p.dahCols ≠ p.dahRows then .err
-      else if p.dahRows < MIN_EXTENDED_SQUARE_WIDTH then .err
-      else if p.dahRows > p.maxWidth then .err
-      else .ok ()
-
-/-- `ExtendedHeader::try_from(raw)` / `decode_and_validate` after the third-party conversions -/
-def ehDecodeValidate (sigOk : Nat → Nat → Bool) (parts : Option EhParts) : Out Unit :=
-  match parts with
-  | none => .err
-  | some p => ehValidate sigOk p
+`TryFrom<RawExtendedHeader>` converts the four parts with tendermint's own `TryFrom`s (third party, trusted
+panic-free like prost) and then calls `ExtendedHeader::validate`.  The model of `validate` is group E's
+`Lumina.Model.HeaderVerify.validate` (C01), which is tied to the real `validate()` field by field by C01's and by
+this property's `ehv` ops; its only panic outcome is the debug-build overflow of the voting-power tally in
+`verify_commit_light` (`Lumina.Model.Commit`). -/
 
 end Lumina.Model.Decoders
